@@ -18,7 +18,7 @@ RULE = ("E1: clamped curves (p<=3 over K(p,2,4); thorough p<=5 over K(p,3,8)/K(p
         "surfaces: full product) x entry points operations.insert_knot, the object wrapper insert_knot, wrapper after a "
         "prior evaluate(), helpers.knot_insertion/knot_insertion_kv on point rows and rows-of-points; the inadmissible "
         "count r=p-s+1 at every such parameter and at both domain ends for rejection; all insertion sequences of length "
-        "<=2 (thorough <=3) over {(dir,u in {1/4,1/2,3/4,1/3}, r in {1,2})} from 2-3 seed shapes per class, judged after "
+        "<=2 (thorough <=3; third volume seed <=2) over {(dir,u in {1/4,1/2,3/4,1/3}, r in {1,2})} from 2-3 seed shapes per class, judged after "
         "every step against the seed; non-trivial = every case (an insertion creates an interior knot)")
 ASSUMPTIONS = [
     "on one knot span of the refined vector both definitions are polynomial (rational: quotients) of degree p per direction, so "
@@ -41,7 +41,7 @@ def bounds(tier):
         thorough=dict(curves='p<=3 over K(p,3,8) (p=3: K(3,3,4)+K(3,2,8)), p=4,5 over K(p,2,4)',
                       surfaces="degrees {1,2,3}^2 over K'(p) level 1, full product of per-direction menus",
                       volumes='degrees {1,2,3}^3 (sum<=7), 3 knot structures per direction',
-                      nonnormalised='4 affine ranges', sequences='depth 3, 3 seeds per class'))[tier]
+                      nonnormalised='4 affine ranges', sequences='depth 3, 3 seeds per class (third volume seed: depth 2)'))[tier]
 
 
 # ----------------------------------------------------------------------------------------
@@ -101,9 +101,9 @@ def gen_cases(tier, seed):
         for dirs in K.nonempty_subsets(3):
             cases.append(dict(kind='e1', shape=d, dirs=dirs))
     # sequences: every node of the insertion tree up to the depth bound is one judged step
-    depth = 2 if q else 3
     for grp in _seed_shapes(tier):
-        for d in grp:
+        for k, d in enumerate(grp):
+            depth = 2 if (q or (d['pdim'] == 3 and k == 2)) else 3      # third volume seed: depth 2 (cost)
             menu = _seq_menu(d['pdim'])
             split = 2 if (d['pdim'] == 3 and depth >= 3) else 1
             for l in range(1, split + 1):
